@@ -25,7 +25,7 @@ pub fn gen(prop: &str, scen: &str, _k: u64, seed: u64, tier: &str) -> Case {
     let mut r_opt = rng.fork("opts");
     let mut r_in = rng.fork("input");
     case.opt = optgen::lzma_opts(&mut r_opt, scen != "mem.decoder.lzma");
-    let dicts: &[u32] = if big { &[4096, 65536, 1 << 20, 8 << 20, 8 << 20, 64 << 20, 256 << 20] } else { &[4096, 4096, 5000, 65536, 65536, 1 << 20, 3 << 19, 8 << 20] };
+    let dicts: &[u32] = if big { &[4096, 65536, 1 << 20, 8 << 20, 8 << 20, 16 << 20, 32 << 20] } else { &[4096, 4096, 5000, 65536, 65536, 1 << 20, 3 << 19, 8 << 20] };
     case.opt.dict = *r_opt.pick(dicts);
     if r_opt.pct(20) {
         case.opt.dict = r_opt.range(4096, 4 << 20) as u32;
